@@ -155,6 +155,30 @@ func NewMail(e *Env, nsess, nbox int, useModel bool) *Mail {
 	return m
 }
 
+// Reconnect replaces every session by a fresh one (after a server restart) and
+// selects the mailboxes that were selected before.
+func (m *Mail) Reconnect() {
+	u := m.E.W.Users[0]
+	for i := range m.Sess {
+		s, err := m.E.W.Connect()
+		if err != nil {
+			m.E.Infra = err
+			return
+		}
+		if r := s.Cmd("LOGIN %s %s", u.Cfg.Names[0], u.Cfg.Password); !r.OK() {
+			m.E.Fail("restart", "LOGIN after restart answered %s %s", r.Status, r.Text)
+			return
+		}
+		s.User = 0
+		m.Sess[i] = s
+		if m.Sel[i] >= 0 {
+			if r := m.Select(i, m.Sel[i], m.RO[i]); !r.OK() {
+				m.Sel[i] = -1
+			}
+		}
+	}
+}
+
 func (m *Mail) sess(a core.Action) (int, *world.Sess) {
 	i := abs(a.S) % len(m.Sess)
 	return i, m.Sess[i]
@@ -173,8 +197,14 @@ func (m *Mail) Select(si int, boxIdx int, examine bool) *wire.Result {
 	s.M.Reset(name, examine)
 	r := s.Cmd("%s %s", verb, Quote(name))
 	if !r.OK() {
+		// RFC 3501: a failed SELECT leaves no mailbox selected; gluon keeps the previous
+		// one.  Not judged here: get into a known state explicitly.
 		s.M.Unselect()
 		m.Sel[si] = -1
+		if !s.C.Dead {
+			s.W.Sim.SetLabel(s.Label)
+			s.C.Do(wire.Simple("UNSELECT"))
+		}
 		return r
 	}
 	m.Sel[si] = abs(boxIdx) % len(m.Boxes)
